@@ -265,7 +265,7 @@ def build_unit_text(unit, xdir, specs, report):
     subst = unit.get('subst', {})
     # keep only the functions reachable from the target (and from the replaced callees' prototypes): smaller units, and a
     # change elsewhere in the headers leaves the unit text - hence its cached result - untouched
-    reach, todo = set(), [target]
+    reach, todo = set(), [target] + list(unit.get('extra_reach', []))
     while todo:
         fn = todo.pop()
         if fn in reach or fn not in report['lowered']:
